@@ -28,6 +28,7 @@ import (
 	"github.com/failsafe-go/failsafe-go/failsafegrpc"
 	"github.com/failsafe-go/failsafe-go/failsafehttp"
 	"github.com/failsafe-go/failsafe-go/fallback"
+	"github.com/failsafe-go/failsafe-go/hedgepolicy"
 	"github.com/failsafe-go/failsafe-go/timeout"
 	"google.golang.org/grpc"
 	"google.golang.org/grpc/codes"
@@ -145,6 +146,13 @@ func (s *scriptedRT) RoundTrip(req *http.Request) (*http.Response, error) {
 type seekCloser struct{ *bytes.Reader }
 
 func (seekCloser) Close() error { return nil }
+
+// pureSeeker can only Read, Seek and Close (no ReadAt)
+type pureSeeker struct{ r *bytes.Reader }
+
+func (s pureSeeker) Read(p []byte) (int, error)                { return s.r.Read(p) }
+func (s pureSeeker) Seek(o int64, whence int) (int64, error) { return s.r.Seek(o, whence) }
+func (pureSeeker) Close() error                               { return nil }
 
 type streamOnly struct{ r io.Reader }
 
@@ -325,6 +333,160 @@ func genHTTPCase(r *Rng) httpCase {
 	return c
 }
 
+// ---- attempts that overlap in time (hedges; an abandoned attempt still draining the body while its retry runs) ----
+
+type overlapCase struct {
+	Stack    string // hedge retry+timeout
+	Hedges   int
+	Level    string
+	BodyKind string // Stream Buffer BytesReader Seeker
+	Size     int
+	ReqCtx   string
+}
+
+// chunkRT reads the request body in two halves with a stall in between, then answers after a latency; it ignores
+// cancellation like a transport whose write loop is still draining the body.
+type chunkRT struct {
+	mu      sync.Mutex
+	n       int
+	size    int
+	stall   []time.Duration
+	latency []time.Duration
+	got     []string
+	live    []bool
+}
+
+func (s *chunkRT) RoundTrip(req *http.Request) (*http.Response, error) {
+	s.mu.Lock()
+	i := s.n
+	s.n++
+	s.got = append(s.got, "")
+	s.live = append(s.live, false)
+	s.mu.Unlock()
+	k := i
+	if k >= len(s.stall) {
+		k = len(s.stall) - 1
+	}
+	var buf bytes.Buffer
+	if req.Body != nil {
+		io.CopyN(&buf, req.Body, int64(s.size/2))
+		time.Sleep(s.stall[k])
+		io.Copy(&buf, req.Body)
+	}
+	s.mu.Lock()
+	s.got[i] = buf.String()
+	s.live[i] = req.Context().Err() == nil
+	s.mu.Unlock()
+	time.Sleep(s.latency[k])
+	return &http.Response{StatusCode: 200, Header: http.Header{}, Request: req, Body: io.NopCloser(strings.NewReader("ok"))}, nil
+}
+
+type overlapObs struct {
+	Attempts int
+	Live     int
+	LiveOK   bool
+	AllOK    bool
+	Lens     []int
+	Leak     string
+}
+
+func runOverlapCase(t *testing.T, c overlapCase) (o overlapObs) {
+	defer func() {
+		if x := recover(); x != nil {
+			o.Leak = fmt.Sprint(x)
+		}
+	}()
+	content := strings.Repeat("0123456789abcdef", c.Size/16+1)[:c.Size]
+	synctest.Test(t, func(t *testing.T) {
+		ms := time.Millisecond
+		rt := &chunkRT{size: c.Size}
+		var pols []failsafe.Policy[*http.Response]
+		if c.Stack == "hedge" {
+			// attempt k starts at 10k ms, reads its halves at 10k and 10k+25 ms: every attempt is mid-body when the next starts;
+			// the last one answers first
+			rt.stall = []time.Duration{25 * ms}
+			rt.latency = []time.Duration{200 * ms, 100 * ms, 20 * ms}[2-c.Hedges:]
+			pols = []failsafe.Policy[*http.Response]{hedgepolicy.BuilderWithDelay[*http.Response](10 * ms).WithMaxHedges(c.Hedges).Build()}
+		} else {
+			// attempt 1 stalls past its 15ms timeout and drains the rest of the body at 20ms, in the middle of attempt 2 (15ms, 23ms)
+			rt.stall = []time.Duration{20 * ms, 8 * ms}
+			rt.latency = []time.Duration{0, 0}
+			pols = []failsafe.Policy[*http.Response]{failsafehttp.RetryPolicyBuilder().Build(), timeout.With[*http.Response](15 * ms)}
+		}
+		ctx := context.Background()
+		var cancel context.CancelFunc = func() {}
+		if c.ReqCtx == "Cancellable" {
+			ctx, cancel = context.WithCancel(ctx)
+		}
+		var body io.Reader
+		switch c.BodyKind {
+		case "Stream":
+			body = streamOnly{strings.NewReader(content)}
+		case "Buffer":
+			body = bytes.NewBufferString(content)
+		case "BytesReader":
+			body = bytes.NewReader([]byte(content))
+		case "PureSeeker":
+			body = pureSeeker{bytes.NewReader([]byte(content))}
+		default:
+			body = seekCloser{bytes.NewReader([]byte(content))}
+		}
+		req, err := http.NewRequestWithContext(ctx, "POST", "http://verif.invalid/overlap", body)
+		if err != nil {
+			t.Fatal(err)
+		}
+		ex := failsafe.NewExecutor[*http.Response](pols...)
+		var resp *http.Response
+		if c.Level == "client" {
+			resp, err = failsafehttp.NewRequestWithExecutor(req, &http.Client{Transport: rt}, ex).Do()
+		} else {
+			resp, err = failsafehttp.NewRoundTripperWithExecutor(rt, ex).RoundTrip(req)
+		}
+		if err == nil && resp != nil {
+			resp.Body.Close()
+		}
+		time.Sleep(time.Hour)
+		synctest.Wait()
+		cancel()
+		rt.mu.Lock()
+		o.Attempts, o.LiveOK, o.AllOK = rt.n, true, true
+		for i, g := range rt.got {
+			o.Lens = append(o.Lens, len(g))
+			if g != content {
+				o.AllOK = false
+				if rt.live[i] {
+					o.LiveOK = false
+				}
+			}
+			if rt.live[i] {
+				o.Live++
+			}
+		}
+		rt.mu.Unlock()
+	})
+	return
+}
+
+func driveOverlap(w *CaseWriter, t *testing.T, rng *Rng) {
+	n := 60
+	if envTier() == "thorough" {
+		n = 1500
+	}
+	for i := 0; i < n; i++ {
+		c := overlapCase{Stack: Pick(rng, []string{"hedge", "hedge", "retry+timeout"}), Hedges: 1 + rng.Intn(2), Level: Pick(rng, []string{"rt", "client"}),
+			BodyKind: Pick(rng, []string{"Stream", "Stream", "Buffer", "BytesReader", "Seeker", "PureSeeker"}), Size: Pick(rng, []int{2, 128, 8192, 70001}), ReqCtx: Pick(rng, []string{"Background", "Cancellable"})}
+		o := runOverlapCase(t, c)
+		kind := strings.TrimPrefix(c.BodyKind, "Pure")
+		w.Add(func(id int) string {
+			return fmt.Sprintf("CaseOverlap %d B%s %d %d %s %s %s", id, kind, o.Attempts, o.Live, gBool(o.LiveOK), gBool(o.AllOK), gBool(o.Leak != ""))
+		}, map[string]any{"scenario": "overlapping attempts", "stack": c.Stack, "max_hedges": c.Hedges, "level": c.Level, "body_kind": c.BodyKind, "body_bytes": c.Size, "request_context": c.ReqCtx,
+			"attempts": o.Attempts, "attempts_not_cancelled_when_body_read": o.Live, "bytes_received_per_attempt": o.Lens, "live_attempts_complete": o.LiveOK, "all_attempts_complete": o.AllOK, "leak": o.Leak},
+			true, fmt.Sprint(c))
+		w.Stat("overlap_stack=" + c.Stack)
+		w.Stat("overlap_body=" + c.BodyKind)
+	}
+}
+
 // ---- gRPC interceptors with fake invoker / handler ----
 
 type grpcObs struct {
@@ -482,8 +644,9 @@ func driveAdapters(t *testing.T, prop string) {
 		w.Stat("http_stack=" + c.Stack)
 		w.Stat("http_attempts=" + bucket(o.Attempts))
 	}
+	driveOverlap(w, t, rng)
 	// the body reader, called directly for every body kind (incl. partially consumed ones)
-	for _, kind := range []string{"Buffer", "BytesReader", "Seeker", "Stream", "None", "Unsupported"} {
+	for _, kind := range []string{"Buffer", "BytesReader", "Seeker", "PureSeeker", "Stream", "None", "Unsupported"} {
 		for _, size := range []int{0, 1, 5, 70000} {
 			for _, off := range []int{0, 1, 3} {
 				if off > size {
@@ -507,6 +670,10 @@ func driveAdapters(t *testing.T, prop string) {
 					b := strings.NewReader(content)
 					b.Seek(int64(off), 0)
 					body = b
+				case "PureSeeker":
+					b := bytes.NewReader([]byte(content))
+					b.Seek(int64(off), 0)
+					body = pureSeeker{b}
 				case "Stream":
 					b := strings.NewReader(content)
 					b.Seek(int64(off), 0)
@@ -526,7 +693,7 @@ func driveAdapters(t *testing.T, prop string) {
 						}
 						got, _ := io.ReadAll(rd)
 						want := content[off:]
-						if kind == "Seeker" {
+						if kind == "Seeker" || kind == "PureSeeker" {
 							want = content
 						}
 						if string(got) != want {
@@ -537,7 +704,7 @@ func driveAdapters(t *testing.T, prop string) {
 				}
 				k, sz, of := kind, size, off
 				w.Add(func(id int) string {
-					return fmt.Sprintf("CaseBody %d B%s %d %d%%nat %s %s %s", id, k, sz, of, gBool(err != nil), gBool(fn == nil), gBool(ok))
+					return fmt.Sprintf("CaseBody %d B%s %d %d%%nat %s %s %s", id, strings.TrimPrefix(k, "Pure"), sz, of, gBool(err != nil), gBool(fn == nil), gBool(ok))
 				}, map[string]any{"body_kind": kind, "size": size, "already_consumed": off, "error": err != nil, "no_body": fn == nil, "three_attempts_read_lengths": lens, "each_attempt_complete": ok},
 					true, fmt.Sprint("body", kind, size, off))
 				w.Stat("bodyreader=" + kind)
@@ -566,7 +733,7 @@ func driveAdapters(t *testing.T, prop string) {
 			true, fmt.Sprint("grpcserver", wt))
 		w.Stat("grpc_server")
 	}
-	w.Close("(1) requests through failsafehttp.NewRoundTripper and NewRequest with a scripted in-memory transport inside a virtual-time bubble: scripts of 1-4 server behaviours (statuses 200/404/429/500/501/502/503, Retry-After seconds, connection / scheme / certificate / redirect / authority / cancellation errors), bodies none / seekable / stream of 0-1MiB, request context Background/TODO/cancellable/with values/with deadline, executor context Background/cancellable, stacks retry / retry+timeout / retry+breaker / fallback+retry; observed per attempt: instant, method, URL, header, body bytes, context value and deadline; returned status or error, readability of the returned body (the transport's body fails once its request context is done), responses opened/closed, goroutines still blocked one hour after the call returned (bubble leak oracle); (2) the body reader called directly for every body kind, size and already-consumed prefix, three attempts each; (3) the gRPC client and server interceptors with scripted status codes, arguments, reply and metadata. Non-trivial = at least two attempts / every body and gRPC case; distinct by inputs.", nil)
+	w.Close("(1) requests through failsafehttp.NewRoundTripper and NewRequest with a scripted in-memory transport inside a virtual-time bubble: scripts of 1-4 server behaviours (statuses 200/404/429/500/501/502/503, Retry-After seconds, connection / scheme / certificate / redirect / authority / cancellation errors), bodies none / seekable / stream of 0-1MiB, request context Background/TODO/cancellable/with values/with deadline, executor context Background/cancellable, stacks retry / retry+timeout / retry+breaker / fallback+retry; observed per attempt: instant, method, URL, header, body bytes, context value and deadline; returned status or error, readability of the returned body (the transport's body fails once its request context is done), responses opened/closed, goroutines still blocked one hour after the call returned (bubble leak oracle); (1b) attempts that overlap in time (a hedge started while earlier attempts are half-way through the body; a timed-out attempt whose transport drains the rest of the body in the middle of its retry) with stream / buffer / bytes.Reader / seekable bodies of 2 B-70 kB: bytes received by every attempt; (2) the body reader called directly for every body kind, size and already-consumed prefix, three attempts each; (3) the gRPC client and server interceptors with scripted status codes, arguments, reply and metadata. Non-trivial = at least two attempts / every body and gRPC case; distinct by inputs.", nil)
 }
 
 func errCodeHTTP(k string) int {
